@@ -305,3 +305,35 @@ def thread_scenarios():
     body = [J("u", 5), {"op": "thread", "var": "t", "body": [J("a2", 1, [("u", "up")])]}, J("a", 1, [("u", "up")]), {"op": "join", "var": "t"}, {"op": "same", "a": "a", "b": "a2"}]
     out.append(sc("threads:same-dependent", "threads", [[XP("xp", body)]], dup_threads=True))
     return out
+
+
+def latejoin_scenarios(failing=False):
+    """A job with two or three dependencies that is submitted when some of them have already finished and the others are
+    still running or waiting (explicit job.wait() between the submissions), in both listing orders of the dependencies and
+    with every pair of embedding kinds; with `failing`, the still-running dependency fails."""
+    W = lambda v: {"op": "wait", "var": v}
+    out = []
+    kind_pairs = [("up", "ups"), ("ups", "upd"), ("holder", "up"), ("pre", "ups"), ("init", "up"), ("explicit", "ups"), ("upd", "explicit"), ("mt", "ups")]
+    for ka, kb in kind_pairs:
+        for swap in (False, True):
+            deps = [("a", ka), ("b", kb)]
+            if swap:
+                deps.reverse()
+            for fb in ((0, 1) if failing else (0,)):
+                # a is over when c is submitted; b has just been submitted
+                body = [J("a", 1), W("a"), J("b", 2, code=fb), J("c", 3, deps)]
+                out.append(sc(f"latejoin:{ka}+{kb}:{'ba' if swap else 'ab'}:f{fb}", "latejoin" + (":fail" if fb else ""), [[XP("xp", body)]]))
+                # b submitted first and still running, a over
+                body = [J("b", 2, code=fb), J("a", 1), W("a"), J("c", 3, deps)]
+                out.append(sc(f"latejoin:{ka}+{kb}:{'ba' if swap else 'ab'}:b-first:f{fb}", "latejoin" + (":fail" if fb else ""), [[XP("xp", body)]]))
+    # three dependencies, two of them over
+    for perm in itertools.permutations([("a", "up"), ("b", "ups"), ("d", "holder")]):
+        body = [J("a", 1), J("d", 4), W("a"), W("d"), J("b", 2), J("c", 3, list(perm))]
+        out.append(sc("latejoin3:" + "".join(v for v, _ in perm), "latejoin", [[XP("xp", body)]]))
+    # a chain behind the late joiner, and a token on it
+    body = [TOK("t", 1), J("a", 1), W("a"), J("b", 2, tok=[("t", 1)]), J("c", 3, [("a", "up"), ("b", "ups")], tok=[("t", 1)]), J("e", 5, [("c", "up")])]
+    out.append(sc("latejoin:token+chain", "latejoin", [[XP("xp", body)]]))
+    return out
+
+
+POL_ORDER = ("FIFO", "FIFO+rev", "JOBS", "JOBS+rev", "LIFO", "LIFO+rev")
